@@ -263,13 +263,29 @@ Proof.
   - destruct (jop_step nc gc x a); [eapply IH; eauto|exact I].
 Qed.
 
-Theorem bok_WF : forall nc gc ops,
-  BOK nc gc ops 0 (AH 0) (AH 0) -> holes nc gc ops 0 (AH 0) = [] ->
-  WF {| bcode := encode (strip ops); nconsts := nc; gcount := gc; lcount := 0 |}.
+Theorem bok_WF : forall nc gc lc ops,
+  BOK nc gc ops 0 (AH 0) (AH 0) -> holes nc gc ops 0 (AH 0) = [] -> Forall (lopk lc) (strip ops) ->
+  WF {| bcode := encode (strip ops); nconsts := nc; gcount := gc; lcount := lc |}.
 Proof.
-  intros nc gc ops [R T] HH. apply ops_WF; [exact R|].
+  intros nc gc lc ops [R T] HH HL. apply ops_WF; [exact R| |exact HL].
   rewrite N.add_0_l in T. eapply htgt_closed; eauto.
 Qed.
+
+(* the local accesses of a list with holes; filling holes does not touch them *)
+Definition LOK (lc : N) (ops : list hop) : Prop := Forall (lopk lc) (strip ops).
+
+Lemma lok_nil lc : LOK lc [].
+Proof. constructor. Qed.
+Lemma lok_app lc a b : LOK lc a -> LOK lc b -> LOK lc (a ++ b).
+Proof. unfold LOK. rewrite strip_app. intros. apply Forall_app. auto. Qed.
+Lemma lok_solid lc ops : Forall (lopk lc) ops -> LOK lc (solid ops).
+Proof. unfold LOK. rewrite strip_solid. auto. Qed.
+Lemma lok_one lc h o a : is_local o = false -> LOK lc [(h, (o, a))].
+Proof. intro H. constructor; [apply lopk_nonlocal; exact H|constructor]. Qed.
+Lemma lok_cons lc h o a t : is_local o = false -> LOK lc t -> LOK lc ((h, (o, a)) :: t).
+Proof. intros H HT. constructor; [apply lopk_nonlocal; exact H|exact HT]. Qed.
+Lemma lok_mono lc lc' ops : lc <= lc' -> LOK lc ops -> LOK lc' ops.
+Proof. intros HL H. unfold LOK in *. eapply Forall_impl; [|exact H]. intros x Hx Hl. specialize (Hx Hl). lia. Qed.
 
 (* ---------- filling is the byte-level operand change of changeOperand ---------- *)
 Lemma set_nth_patch (pre : list N) : forall a h l hi lo rest,
@@ -357,4 +373,15 @@ Proof.
     cbn [orb]. rewrite andb_false_r. left. auto.
   - destruct (h && is_jump (fst x) && existsb (N.eqb pc) [q]); cbn [fst snd]; right; split; auto;
       destruct x; apply IH; auto.
+Qed.
+
+Lemma lok_fill lc sel T : forall ops pc, LOK lc ops -> LOK lc (fill sel T ops pc).
+Proof.
+  unfold LOK. induction ops as [|[h x] t IH]; intros pc H; [constructor|]. cbn [fill].
+  cbn [strip map snd] in H. inversion H; subst.
+  destruct (h && is_jump (fst x) && existsb (N.eqb pc) sel) eqn:EC.
+  - apply andb_true_iff in EC. destruct EC as [EC _]. apply andb_true_iff in EC. destruct EC as [_ HJ].
+    cbn [strip map snd]. constructor; [|apply IH; assumption].
+    apply lopk_nonlocal. destruct (fst x); try discriminate HJ; reflexivity.
+  - cbn [strip map snd]. constructor; [assumption|apply IH; assumption].
 Qed.
